@@ -13,7 +13,7 @@ Trace == ndJsonDeserialize(IOEnv.TRACE)
 
 VARIABLES l, bad
 
-Conjuncts == {"C20_NoPanic", "C20_Pure", "C20_PrefixLaw", "C20_ConcSameAsSeq", "C20_ConcNoRace", "C20_ConcComplete"}
+Conjuncts == {"C20_NoPanic", "C20_Pure", "C20_HistoryFree", "C20_PrefixLaw", "C20_ConcSameAsSeq", "C20_ConcNoRace", "C20_ConcComplete"}
 
 RECURSIVE ConcOK(_, _, _, _)     \* events, index, pending: set of <<g,k>>, memo: function k -> value (as a set of pairs)
 ConcOK(ev, i, pending, memo) ==
@@ -35,6 +35,9 @@ Holds(c, r) ==
            [] OTHER -> TRUE
     ELSE CASE c = "C20_NoPanic"   -> ~o.panicked
            [] c = "C20_Pure"      -> o.panicked \/ o.again
+           (* pure = a function of the input alone: a string that has been an ANSWER of this process is inflected like the same word
+              in a string the process has never seen *)
+           [] c = "C20_HistoryFree" -> o.panicked \/ ~o.hist_judged \/ o.hist_out = o.fresh_out
            [] c = "C20_PrefixLaw" -> o.panicked \/ ~r.conc.law \/ PrefixLaw(r.conc.lead, o.alone_out, o.out)
            [] OTHER -> TRUE
 
